@@ -35,8 +35,8 @@ MANIFEST_ENTRY = {
         "here it is compared to the millisecond end to end. Trusted: Lean kernel, harness, driver, mp4walk, mp4synth, shims."),
     "technique": "Lean 4 proof (case analysis, induction over the timeline loop and over the box list) + model/implementation correspondence",
 }
-PROP_FILES = ["DashLive/Props/C06.lean", "DashLive/Props/GenTie.lean", "DashLive/Props/GenTieTimeline.lean"]
-LEAN_TARGETS = ["DashLive.Props.C06", "DashLive.Props.GenTie", "DashLive.Props.GenTieTimeline"]
+PROP_FILES = ["DashLive/Props/C06.lean", "DashLive/Props/GenTie.lean", "DashLive/Props/GenTieTimeline.lean", "DashLive/Props/GenTieLiveIndex.lean"]
+LEAN_TARGETS = ["DashLive.Props.C06", "DashLive.Props.GenTie", "DashLive.Props.GenTieTimeline", "DashLive.Props.GenTieLiveIndex"]
 
 
 def _gen_arith():
@@ -45,6 +45,8 @@ def _gen_arith():
     import gen_timeline
     gen_arith.main()
     gen_timeline.main()
+    import gen_liveindex
+    gen_liveindex.main()
 
 GENERATORS = [_gen_arith]
 TRUSTED = ["harness/mp4walk.py, harness/mp4synth.py, harness/segwalk.py, /verif/shims"]
